@@ -273,3 +273,51 @@ def get_model(axioms, ob, timeout_s=20):
     if r == z3.sat:
         return s.model()
     return None
+
+
+def _hyp_job(job):
+    idx, smt2 = job
+    out = {'idx': idx, 'result': 'unknown', 'reason': '', 'backend': 'z3'}
+    _z3(smt2, 5, out)
+    if out['result'] == 'unsat' and os.path.exists(CVC5):
+        r = {'result': 'unknown', 'reason': '', 'backend': ''}
+        _cvc5(smt2, 20, r)
+        out['second'] = r['result']
+    return out
+
+
+def hypotheses_guard(axioms_of, obligations, procs=None):
+    """Guard against a solver that wrongly refutes the HYPOTHESES (z3 4.8.12 and 5.1.0 both do on some satisfiable
+    formulas with `seq.nth` under quantifiers, see notes/): for every distinct path condition, `axioms and pc` is
+    solved on its own.  `unsat` from z3 is accepted as a dead path only if cvc5 agrees; otherwise every obligation
+    on that path is withdrawn (undecided).  Returns {obligation id: reason} for the withdrawn ones and statistics."""
+    groups = {}
+    for ob in obligations:
+        key = tuple(p.get_id() for p in ob.pc)
+        groups.setdefault(key, []).append(ob)
+    jobs = []
+    keys = list(groups)
+    for i, k in enumerate(keys):
+        ob = groups[k][0]
+        ax = relevant_axioms(axioms_of(ob), list(ob.pc))
+        jobs.append((i, exprs_to_smt2(list(ax) + list(ob.pc))))
+    if not jobs:
+        return {}, {'paths': 0, 'dead_confirmed': 0, 'withdrawn': 0}
+    procs = procs or min(16, os.cpu_count() or 4, len(jobs))
+    if procs <= 1:
+        res = [_hyp_job(j) for j in jobs]
+    else:
+        with mp.get_context('fork').Pool(procs) as pool:
+            res = pool.map(_hyp_job, jobs, chunksize=2)
+    withdrawn = {}
+    dead = 0
+    for r in res:
+        if r['result'] != 'unsat':
+            continue
+        if r.get('second') == 'unsat':
+            dead += 1
+            continue
+        for ob in groups[keys[r['idx']]]:
+            withdrawn[ob.id] = ('path condition refuted by z3 only (cvc5: %s): possible solver defect, not counted '
+                                'as discharged' % r.get('second', 'not run'))
+    return withdrawn, {'paths': len(jobs), 'dead_confirmed': dead, 'withdrawn': len(withdrawn)}
